@@ -93,6 +93,10 @@ func TestPrefetchEcsShared(t *testing.T) {
 	const name = "geo.ex."
 	global := net.IPv4(10, 0, 0, 1).To4()
 	for _, variant := range in.Variants {
+		if strings.HasPrefix(variant, "scoped") {
+			scopedNeverRefreshed(res, in, variant)
+			continue
+		}
 		cfg := pipe.BaseConfig()
 		cfg.Prefetch = 50
 		cfg.ECS.Enabled = true
@@ -196,4 +200,90 @@ func TestPrefetchEcsShared(t *testing.T) {
 		res.Sample(map[string]any{"variant": variant, "log": log})
 		release()
 	}
+}
+
+
+// scopedNeverRefreshed: an entry stored under an ECS scope is never handed to the background refresh
+// (Prefetch.tla: Eligible; mutant ScopeBug), whichever path the hit is served on.
+//
+//	q1  client with ECS 198.51.100.0/24   -> subnet answer (scope /24), stored under the scoped key
+//	clock +6 s (TTL 10, prefetch 50 %)     -> a shared entry would be due
+//	q2  another client of the same subnet  -> hit; NO upstream query may follow
+//	q3  the same audience again            -> still the subnet answer
+func scopedNeverRefreshed(res *vh.Result, in ecsInput, variant string) {
+	const name = "geo2.ex."
+	global := net.IPv4(10, 0, 0, 1).To4()
+	cfg := pipe.BaseConfig()
+	cfg.Prefetch = 50
+	cfg.ECS.Enabled = true
+	tail := &pipe.Tail{}
+	tail.Respond = func(ctx context.Context, ch *middleware.Chain, req *dns.Msg) *dns.Msg {
+		m := new(dns.Msg)
+		m.SetReply(req)
+		m.RecursionAvailable = true
+		addr := global
+		if opt := req.IsEdns0(); opt != nil {
+			for _, o := range opt.Option {
+				if s, ok := o.(*dns.EDNS0_SUBNET); ok && s.Family == 1 {
+					ip := s.Address.To4()
+					addr = net.IPv4(ip[0], ip[1], ip[2], 53).To4()
+					m.SetEdns0(1232, false)
+					m.IsEdns0().Option = append(m.IsEdns0().Option, &dns.EDNS0_SUBNET{Code: dns.EDNS0SUBNET, Family: 1,
+						SourceNetmask: s.SourceNetmask, SourceScope: 24, Address: s.Address})
+				}
+			}
+		}
+		m.Answer = []dns.RR{&dns.A{Hdr: dns.RR_Header{Name: req.Question[0].Name, Rrtype: dns.TypeA, Class: dns.ClassINET, Ttl: 10}, A: addr}}
+		return m
+	}
+	srv, release := pipe.NewServer(cfg, tail, "resolver")
+	defer release()
+	c, ok := middleware.Get("cache").(*mcache.Cache)
+	if !ok {
+		res.Skip("variant %s: the cache handler is not in the pipeline", variant)
+		return
+	}
+	ask := func(q *dns.Msg, client string) *dns.Msg {
+		if variant == "scoped-raw" {
+			return pipe.AskRaw(srv, q, "udp", client)
+		}
+		return pipe.Ask(srv, q, "udp", client)
+	}
+	log := []string{fmt.Sprintf("config: [ecs] enabled=true prefetch=50, entry path %s", variant)}
+	say := func(f string, a ...any) { log = append(log, fmt.Sprintf(f, a...)) }
+	sub := net.IPv4(198, 51, 100, 0)
+	r1 := ask(ecsQuery(name, 1, sub), "203.0.113.7")
+	say("q1 203.0.113.7 ECS 198.51.100.0/24 -> %s; upstream queries so far %d", firstA(r1), tail.NCalls())
+	if !strings.HasPrefix(firstA(r1), "198.51.100.") {
+		res.Skip("variant %s: q1 was not answered with the subnet answer (%s)", variant, firstA(r1))
+		return
+	}
+	c.VerifX04pfShift(6 * time.Second)
+	say("clock +6 s")
+	before := tail.NCalls()
+	r2 := ask(ecsQuery(name, 2, sub), "203.0.113.8")
+	say("q2 203.0.113.8 ECS 198.51.100.0/24 -> %s (upstream queries %d -> %d right after)", firstA(r2), before, tail.NCalls())
+	hit := tail.NCalls() == before
+	refreshed := waitUntil(func() bool { return tail.NCalls() > before }, 700*time.Millisecond)
+	if refreshed {
+		sn, _ := subnetOf(tail.Last())
+		say("a background query reached upstream after the hit (ECS=%q)", sn)
+	}
+	r3 := ask(ecsQuery(name, 3, sub), "203.0.113.9")
+	say("q3 203.0.113.9 ECS 198.51.100.0/24 -> %s", firstA(r3))
+	res.Case("ecs-scoped-never-refreshed/" + variant)
+	res.Count("variants", 1)
+	res.Count("refresh_ran_"+variant, 1) // (the scenario ran; the vacuity guard of the caller keys on this name)
+	res.Count("scoped_hit_"+variant, b2i(hit))
+	res.Count("scoped_entry_refreshed_"+variant, b2i(hit && refreshed))
+	replay := map[string]any{"driver": "x04pf-ecs", "input": map[string]any{"variants": []string{variant}, "judge": true}, "log": log}
+	if in.Judge && hit && refreshed {
+		res.Violate("ecs-scoped-refresh/"+variant, fmt.Sprintf(
+			"a cache entry stored under an ECS scope was handed to the background refresh after a hit: %s", strings.Join(log, " | ")), replay)
+	}
+	if in.Judge && hit && !strings.HasPrefix(firstA(r3), "198.51.100.") {
+		res.Violate("ecs-scoped-replaced/"+variant, fmt.Sprintf(
+			"the audience of a scoped entry no longer gets its subnet answer after a hit inside the prefetch window: %s", strings.Join(log, " | ")), replay)
+	}
+	res.Sample(map[string]any{"variant": variant, "log": log})
 }
